@@ -26,6 +26,8 @@ SPEC = {
     'declined': ['full RFC 3986 section 5.2 agreement', 'normalize idempotence', 'chained navigation'],
     'trusted_base': [], 'assumptions': [], 'exhaustive': True,
 }
+SPEC['explanation'] += ' T9.norm also covers every return path that does not hand back the absolute reference itself: its result is normalised.'
+SPEC['decided'] += ['all non-absolute results normalised']
 MANIFEST = {
     'technique': 'effect (write-set) analysis, must-pass-through on CFG paths, control-dependence of loads, guard predicate folded over a finite abstract domain of list shapes',
     'text': ('Decides necessary structural clauses of C07: navigate is a pure function of the base, always normalises, removes dot '
